@@ -10,7 +10,7 @@ export VERIF_DIR="$PWD"
 ID="${1:?property id}"; TIER="${2:-quick}"; shift; shift || true
 REPO="${VERIF_REPO:-/repo}"
 BIN="$VERIF_DIR/.build/bin"
-FT_IDS="C04 C06 C12"   # properties with case groups on the virtual clock
+FT_IDS="C04 C06 C12 C14"   # properties with case groups on the virtual clock
 mkdir -p "$BIN"
 MODFLAG=""
 if [ "$REPO" != "/repo" ]; then
